@@ -238,10 +238,7 @@ func runC39(r *Report) {
 			if !ok || !strings.HasSuffix(CalleeName(c), ".DoCache") {
 				continue
 			}
-			reads := DependsOn(c.Call.Args[1], func(v ssa.Value) bool {
-				k, is := v.(*ssa.Call)
-				return is && strings.HasSuffix(CalleeName(k), "Get).Key") && k.Call.Args[1] == arg
-			})
+			reads := builderKeyIs(c.Call.Args[1], arg)
 			if reads && Desc(arg) == "p3" {
 				regKey = true
 			} else if reads {
@@ -378,6 +375,23 @@ func isPhiEdgeOf(phi ssa.Value, v ssa.Value) bool {
 		if e == v {
 			return true
 		}
+	}
+	return false
+}
+
+// builderKeyIs follows the receiver chain of a command builder expression (X.Key(k).Cache() ...)
+// and reports whether its Key argument is k.
+func builderKeyIs(cmd ssa.Value, k ssa.Value) bool {
+	v := cmd
+	for i := 0; i < 8; i++ {
+		c, ok := v.(*ssa.Call)
+		if !ok || len(c.Call.Args) == 0 {
+			return false
+		}
+		if strings.HasSuffix(CalleeName(c), ").Key") && len(c.Call.Args) >= 2 {
+			return c.Call.Args[1] == k
+		}
+		v = c.Call.Args[0]
 	}
 	return false
 }
